@@ -91,7 +91,8 @@ def _swap_negative_ifs(node):
         if isinstance(n, ast.If) and n.orelse and not (len(n.orelse) == 1 and isinstance(n.orelse[0], ast.If) and _is_elif(n, n.orelse[0])):
             t = n.test
             neg = (isinstance(t, ast.Compare) and len(t.ops) == 1 and isinstance(t.ops[0], ast.IsNot) and isinstance(t.comparators[0], ast.Constant) and t.comparators[0].value is None) or \
-                  (isinstance(t, ast.UnaryOp) and isinstance(t.op, ast.Not))
+                  (isinstance(t, ast.UnaryOp) and isinstance(t.op, ast.Not)) or \
+                  (isinstance(t, ast.Compare) and len(t.ops) == 1 and isinstance(t.ops[0], ast.NotIn))  # `x not in T` with both branches: the positive membership first
             if neg:
                 n.test = _negate(t)
                 n.body, n.orelse = n.orelse, n.body
@@ -200,6 +201,7 @@ class Helper:
             if d is not None:
                 self.defaults[p.arg] = d
         self.is_gen = any(isinstance(n, (ast.Yield, ast.YieldFrom)) for n in _walk_own(fn))
+        self.is_ctx = False
 
     # the helper's own body is rewritten by the passes that run before inlining (guard-clause flattening replaces fn.body and moves
     # statements out of `else` branches): always read it from the function as it is now
@@ -399,11 +401,21 @@ class Inliner:
             return  # without the reference of known names nothing is inlined
         for st in tree.body:
             if isinstance(st, FDEFS) and st.name.startswith("_") and not st.name.startswith("__") and st.name not in known:
+                decs_ = {d.id if isinstance(d, ast.Name) else getattr(d, "attr", "") for d in st.decorator_list}
+                if decs_ - {"contextmanager"}:
+                    continue
                 self.helpers[(None, st.name)] = Helper(st, "function")
+                if decs_:
+                    self.helpers[(None, st.name)].is_ctx = True
             elif isinstance(st, ast.ClassDef):
                 for f in st.body:
                     if isinstance(f, FDEFS) and f.name.startswith("_") and not f.name.startswith("__") and f"{st.name}.{f.name}" not in known:
                         decs = {d.id if isinstance(d, ast.Name) else getattr(d, "attr", "") for d in f.decorator_list}
+                        if decs == {"contextmanager"}:
+                            h_ = Helper(f, "method", st.name)
+                            h_.is_ctx = True  # used only by `with`: N25
+                            self.helpers[(st.name, f.name)] = h_
+                            continue
                         if decs - {"staticmethod", "classmethod"}:
                             continue
                         kind = "static" if "staticmethod" in decs else "class" if "classmethod" in decs else "method"
@@ -558,7 +570,7 @@ class Inliner:
             return None
         top = st.test if is_if else st.iter if is_for else st.value
         calls = [n for n in ast.walk(top) if isinstance(n, ast.Call)]
-        cands = [c for c in calls if (c is not top or is_if or is_for) and (h := self._resolve(c, cls)) is not None and not (h.expr is not None and not h.locals) and not h.is_gen]
+        cands = [c for c in calls if (c is not top or is_if or is_for) and (h := self._resolve(c, cls)) is not None and not (h.expr is not None and not h.locals) and not h.is_gen and not h.is_ctx]
         if len(cands) != 1:
             return None
         c = cands[0]
@@ -597,7 +609,56 @@ class Inliner:
             st.value = R().visit(top)
         return [pre, st]
 
+    def _inline_with(self, st: ast.With, cls: Optional[str]) -> Optional[List[ast.stmt]]:
+        """N25  with self._helper(args) [as v]: B   ->   PRE ; [v = <yielded>] ; B ; POST
+        for a private @contextmanager helper whose body is PRE ; yield [value] ; POST at its top level (no try around the yield: when B
+        raises, POST does not run - in both forms).  B may end in one `return E` (-> t = E ; POST ; return t) and must not leave
+        in any other way.  `with a, helper(): B` is read as `with a: with helper(): B`."""
+        idx = [k for k, it in enumerate(st.items) if isinstance(it.context_expr, ast.Call) and (h := self._resolve(it.context_expr, cls)) is not None and h.is_ctx]
+        if not idx:
+            return None
+        if len(st.items) > 1:
+            k = idx[-1]
+            inner = ast.copy_location(ast.With(items=st.items[k:], body=st.body), st)
+            if k == 0:
+                inner = ast.copy_location(ast.With(items=st.items[1:], body=st.body), st)
+                one = ast.copy_location(ast.With(items=st.items[:1], body=[inner]), st)
+                return [one]
+            st2 = ast.copy_location(ast.With(items=st.items[:k], body=[inner]), st)
+            return [st2]
+        it = st.items[0]
+        h = self._resolve(it.context_expr, cls)
+        m = h.bind(it.context_expr, self._receiver(it.context_expr, h))
+        if m is None:
+            return None
+        hb = h.body
+        ys = [k for k, s_ in enumerate(hb) if isinstance(s_, ast.Expr) and isinstance(s_.value, ast.Yield)]
+        n_y = sum(1 for n in _walk_own(h.fn) if isinstance(n, (ast.Yield, ast.YieldFrom)))
+        if len(ys) != 1 or n_y != 1 or any(isinstance(n, (ast.Return, ast.Global, ast.Nonlocal)) or isinstance(n, FDEFS) for n in _walk_own(h.fn)):
+            return None
+        leaves = [n for s_ in st.body for n in [s_] + list(_walk_own(s_)) if isinstance(n, (ast.Return, ast.Break, ast.Continue))]
+        tail_ret = st.body[-1] if st.body and isinstance(st.body[-1], ast.Return) else None
+        if [n for n in leaves if n is not tail_ret]:
+            return None
+        prologue, body = self._instantiate(h, m, st)
+        k = ys[0]
+        pre, post = body[:k], body[k + 1:]
+        yv = body[k].value.value
+        bind_ = []
+        if it.optional_vars is not None:
+            if yv is None:
+                yv = ast.Constant(value=None)
+            bind_ = [ast.copy_location(ast.Assign(targets=[it.optional_vars], value=yv, lineno=st.lineno), st)]
+        if tail_ret is None:
+            return prologue + pre + bind_ + st.body + post
+        self.counter += 1
+        tmp = f"value__{self.counter}"
+        keep = ast.copy_location(ast.Assign(targets=[ast.Name(id=tmp, ctx=ast.Store())], value=tail_ret.value if tail_ret.value is not None else ast.Constant(value=None), lineno=st.lineno), st)
+        return prologue + pre + bind_ + st.body[:-1] + [keep] + post + [ast.copy_location(ast.Return(value=ast.Name(id=tmp, ctx=ast.Load())), tail_ret)]
+
     def _inline_one(self, st: ast.stmt, cls: Optional[str]) -> Optional[List[ast.stmt]]:
+        if isinstance(st, ast.With):
+            return self._inline_with(st, cls)
         hoisted = self._hoist_nested(st, cls)
         if hoisted is not None:
             return hoisted
@@ -616,7 +677,7 @@ class Inliner:
         if call is None:
             return None
         h = self._resolve(call, cls)
-        if h is None or h.expr is not None and not h.locals:
+        if h is None or h.is_ctx or h.expr is not None and not h.locals:
             return None  # expression helpers are handled by inline_expressions
         if h.is_gen != (mode == "yieldfrom"):
             return None
@@ -734,6 +795,19 @@ def _split_tuple_assigns(stmts: List[ast.stmt]) -> List[ast.stmt]:
                 and len(st.targets[0].elts) == len(st.value.elts) and all(isinstance(t, ast.Name) for t in st.targets[0].elts):
             tnames = {t.id for t in st.targets[0].elts}
             if not any(isinstance(n, ast.Name) and n.id in tnames for v in st.value.elts for n in ast.walk(v)):
+                for t, v in zip(st.targets[0].elts, st.value.elts):
+                    out.append(ast.copy_location(ast.Assign(targets=[t], value=v, lineno=st.lineno), st))
+                continue
+        # o.x, o.y = (E1, E2)  ->  o.x = E1 ; o.y = E2   when no value after the first reads anything an earlier target could be
+        # (later values are built from constants, names that are not targets and displays only)
+        if isinstance(st, ast.Assign) and len(st.targets) == 1 and isinstance(st.targets[0], ast.Tuple) and isinstance(st.value, ast.Tuple) \
+                and len(st.targets[0].elts) == len(st.value.elts) and all(isinstance(t, ast.Name) or _plain_chain(t) for t in st.targets[0].elts) \
+                and any(isinstance(t, ast.Attribute) for t in st.targets[0].elts):
+            tnames = {t.id for t in st.targets[0].elts if isinstance(t, ast.Name)}
+            later_ok = all(all(isinstance(n, (ast.Constant, ast.Name, ast.List, ast.Tuple, ast.Dict, ast.Set, ast.Load)) and not (isinstance(n, ast.Name) and n.id in tnames) for n in ast.walk(v))
+                           for v in st.value.elts[1:])
+            first_ok = not any(isinstance(n, ast.Name) and n.id in tnames for n in ast.walk(st.value.elts[0]))
+            if later_ok and first_ok:
                 for t, v in zip(st.targets[0].elts, st.value.elts):
                     out.append(ast.copy_location(ast.Assign(targets=[t], value=v, lineno=st.lineno), st))
                 continue
@@ -1275,6 +1349,118 @@ def _range_len_to_enumerate(stmts):
     return stmts
 
 
+def _fold_module_constants(tree, counts):
+    """N20  NAME = tuple(f"reg{i}" for i in range(5))  ->  NAME = ("reg0", ..., "reg4")   at module level: a name bound once to an
+    expression built only from literals, ranges, comprehensions over them, tuple / list / len / str / int / sorted / reversed and
+    names folded before it is replaced by the display it evaluates to (constant folding; at most 64 constants)."""
+    allowed_calls = {"tuple": tuple, "list": list, "range": range, "len": len, "str": str, "int": int, "sorted": sorted, "reversed": reversed, "zip": zip, "enumerate": enumerate}
+    folded: Dict[str, object] = {}
+
+    def closed(e, bound):
+        if isinstance(e, ast.Constant):
+            return isinstance(e.value, (str, int, bool, type(None))) or e.value is None
+        if isinstance(e, ast.Name):
+            return e.id in bound or e.id in folded
+        if isinstance(e, (ast.Tuple, ast.List)):
+            return all(closed(x, bound) for x in e.elts)
+        if isinstance(e, ast.JoinedStr):
+            return all(closed(x, bound) for x in e.values)
+        if isinstance(e, ast.FormattedValue):
+            return e.format_spec is None and e.conversion == -1 and closed(e.value, bound)
+        if isinstance(e, ast.BinOp) and isinstance(e.op, (ast.Add, ast.Sub, ast.Mult, ast.FloorDiv, ast.Mod)):
+            return closed(e.left, bound) and closed(e.right, bound)
+        if isinstance(e, ast.Call):
+            return isinstance(e.func, ast.Name) and e.func.id in allowed_calls and e.func.id not in bound and not e.keywords and all(closed(a, bound) for a in e.args)
+        if isinstance(e, ast.Subscript):
+            sl = e.slice
+            parts = [sl.lower, sl.upper, sl.step] if isinstance(sl, ast.Slice) else [sl]
+            return closed(e.value, bound) and all(x is None or closed(x, bound) for x in parts)
+        if isinstance(e, (ast.GeneratorExp, ast.ListComp)):
+            b2 = set(bound)
+            for g in e.generators:
+                if g.is_async or not closed(g.iter, b2):
+                    return False
+                for t in ast.walk(g.target):
+                    if isinstance(t, ast.Name):
+                        b2.add(t.id)
+                if not all(closed(c, b2) for c in g.ifs):
+                    return False
+            return closed(e.elt, b2)
+        return False
+
+    def display(v, like):
+        if isinstance(v, (str, int, bool)) or v is None:
+            return ast.Constant(value=v)
+        if isinstance(v, (tuple, list)) and len(v) <= 64:
+            elts = [display(x, like) for x in v]
+            if any(x is None for x in elts):
+                return None
+            return (ast.Tuple if isinstance(v, tuple) else ast.List)(elts=elts, ctx=ast.Load())
+        return None
+
+    for st in tree.body:
+        if not (isinstance(st, ast.Assign) and len(st.targets) == 1 and isinstance(st.targets[0], ast.Name) and counts.get(st.targets[0].id) == 1):
+            continue
+        name, e = st.targets[0].id, st.value
+        if isinstance(e, ast.Constant):
+            if isinstance(e.value, (str, int, bool)) and not isinstance(e.value, bool) or isinstance(e.value, str):
+                folded[name] = e.value
+            continue
+        if not closed(e, set()):
+            continue
+        if isinstance(e, (ast.Tuple, ast.List)) and all(isinstance(x, ast.Constant) for x in e.elts):
+            folded[name] = tuple(x.value for x in e.elts) if isinstance(e, ast.Tuple) else [x.value for x in e.elts]
+            continue
+        if not any(isinstance(x, (ast.Call, ast.GeneratorExp, ast.ListComp, ast.Subscript)) for x in ast.walk(e)):
+            continue  # plain arithmetic on constants is left to the constant evaluator of the model
+        try:
+            code = compile(ast.fix_missing_locations(ast.Expression(body=copy.deepcopy(e))), "<const>", "eval")
+            v = eval(code, {"__builtins__": {}, **allowed_calls, **folded})  # closed constant expression: literals, ranges and the pure builtins above only
+        except Exception:
+            continue
+        d = display(v, e)
+        if d is not None and isinstance(v, (tuple, list)):
+            st.value = ast.copy_location(d, e)
+            ast.fix_missing_locations(st.value)
+            folded[name] = v
+
+
+class _FoldConstTableOps(ast.NodeTransformer):
+    """len(T) -> n,  T[a:b] -> display,  T[i] -> element   for a module-level constant T bound once to a display of constants"""
+
+    def __init__(self, module_consts):
+        self.mc = module_consts
+
+    def _const_int(self, e):
+        if e is None:
+            return None
+        if isinstance(e, ast.Constant) and isinstance(e.value, int) and not isinstance(e.value, bool):
+            return e.value
+        if isinstance(e, ast.UnaryOp) and isinstance(e.op, ast.USub) and isinstance(e.operand, ast.Constant) and isinstance(e.operand.value, int):
+            return -e.operand.value
+        return "?"
+
+    def visit_Call(self, node):
+        self.generic_visit(node)
+        if isinstance(node.func, ast.Name) and node.func.id == "len" and len(node.args) == 1 and not node.keywords and isinstance(node.args[0], ast.Name) and node.args[0].id in self.mc:
+            return ast.copy_location(ast.Constant(value=len(self.mc[node.args[0].id].elts)), node)
+        return node
+
+    def visit_Subscript(self, node):
+        self.generic_visit(node)
+        if isinstance(node.value, ast.Name) and node.value.id in self.mc and isinstance(node.ctx, ast.Load):
+            t = self.mc[node.value.id]
+            if isinstance(node.slice, ast.Slice):
+                lo, hi, stp = (self._const_int(x) for x in (node.slice.lower, node.slice.upper, node.slice.step))
+                if "?" not in (lo, hi, stp):
+                    return ast.copy_location(type(t)(elts=[copy.deepcopy(x) for x in t.elts[slice(lo, hi, stp)]], ctx=ast.Load()), node)
+            else:
+                i = self._const_int(node.slice)
+                if isinstance(i, int) and -len(t.elts) <= i < len(t.elts):
+                    return ast.copy_location(copy.deepcopy(t.elts[i]), node)
+        return node
+
+
 class _UnrollLiteralComprehensions(ast.NodeTransformer):
     """[f(x) for x in (a, b)]  ->  [f(a), f(b)]   (one generator over a tuple / list display, no condition, name target);
     the same for a generator expression that is the only argument of .extend / .join / list / tuple (consumed completely, in order),
@@ -1283,42 +1469,72 @@ class _UnrollLiteralComprehensions(ast.NodeTransformer):
     def __init__(self, module_consts: Optional[Dict[str, ast.AST]] = None):
         self.module_consts = module_consts or {}
 
+    def _display(self, it):
+        if isinstance(it, ast.Name) and it.id in self.module_consts:
+            it = self.module_consts[it.id]
+        if isinstance(it, (ast.Tuple, ast.List)) and len(it.elts) <= 12 and not any(isinstance(e, ast.Starred) for e in it.elts):
+            return it.elts
+        return None
+
     def _items(self, comp):
+        """-> (mapping per item: [{loop variable: expression}], ...) or None"""
         if len(comp.generators) != 1:
             return None
         g = comp.generators[0]
-        it = g.iter
-        if isinstance(it, ast.Name) and it.id in self.module_consts:
-            it = self.module_consts[it.id]
-        if g.ifs or g.is_async or not isinstance(g.target, ast.Name) or not isinstance(it, (ast.Tuple, ast.List)) or len(it.elts) > 12:
+        if g.ifs or g.is_async:
             return None
-        if any(isinstance(e, ast.Starred) for e in it.elts):
+        it = g.iter
+        rows = None
+        if isinstance(it, ast.Call) and isinstance(it.func, ast.Name) and it.func.id == "zip" and not it.keywords and len(it.args) >= 2:
+            cols = [self._display(a) for a in it.args]
+            if any(c is None for c in cols):
+                return None
+            rows = [list(r) for r in zip(*cols)]  # zip stops at the shortest
+        else:
+            els = self._display(it)
+            if els is None:
+                return None
+            rows = [[e] for e in els] if isinstance(g.target, ast.Name) else None
+            if rows is None:
+                if not all(isinstance(e, ast.Tuple) and not any(isinstance(x, ast.Starred) for x in e.elts) for e in els):
+                    return None
+                rows = [list(e.elts) for e in els]
+        tgt = [g.target] if isinstance(g.target, ast.Name) else list(g.target.elts) if isinstance(g.target, ast.Tuple) else None
+        if tgt is None or not all(isinstance(t, ast.Name) for t in tgt) or any(len(r) != len(tgt) for r in rows):
             return None
         parts = [comp.elt] if not isinstance(comp, ast.DictComp) else [comp.key, comp.value]
         if any(isinstance(n, (ast.Lambda, ast.ListComp, ast.GeneratorExp, ast.SetComp, ast.DictComp)) for p_ in parts for n in ast.walk(p_)):
             return None
-        return g.target.id, it.elts
+        # an item that is substituted more than once must be a plain chain or a constant (no call evaluated twice)
+        return [{t.id: v for t, v in zip(tgt, r)} for r in rows]
 
     def _unroll(self, comp):
-        r = self._items(comp)
-        if r is None:
+        rows = self._items(comp)
+        if rows is None:
             return None
-        var, items = r
-        return ast.List(elts=[_Subst({var: item}).visit(copy.deepcopy(comp.elt)) for item in items], ctx=ast.Load())
+        return ast.List(elts=[_Subst(r).visit(copy.deepcopy(comp.elt)) for r in rows], ctx=ast.Load())
 
     def visit_DictComp(self, node):
         self.generic_visit(node)
-        r = self._items(node)
-        if r is None:
+        rows = self._items(node)
+        if rows is None:
             return node
-        var, items = r
-        return ast.copy_location(ast.Dict(keys=[_Subst({var: item}).visit(copy.deepcopy(node.key)) for item in items],
-                                          values=[_Subst({var: item}).visit(copy.deepcopy(node.value)) for item in items]), node)
+        return ast.copy_location(ast.Dict(keys=[_Subst(r).visit(copy.deepcopy(node.key)) for r in rows],
+                                          values=[_Subst(r).visit(copy.deepcopy(node.value)) for r in rows]), node)
 
     def visit_ListComp(self, node):
         self.generic_visit(node)
         new = self._unroll(node)
         return ast.copy_location(new, node) if new is not None else node
+
+    def visit_Assign(self, node):
+        self.generic_visit(node)
+        # a, b = (f(x) for x in (p, q))  ->  a, b = (f(p), f(q))   (unpacking consumes the generator completely, in order)
+        if len(node.targets) == 1 and isinstance(node.targets[0], (ast.Tuple, ast.List)) and isinstance(node.value, (ast.GeneratorExp, ast.List)):
+            v = self._unroll(node.value) if isinstance(node.value, ast.GeneratorExp) else node.value
+            if v is not None and len(v.elts) == len(node.targets[0].elts) and not any(isinstance(x, ast.Starred) for x in list(v.elts) + list(node.targets[0].elts)):
+                node.value = ast.copy_location(ast.Tuple(elts=v.elts, ctx=ast.Load()), node.value)
+        return node
 
     def visit_Call(self, node):
         self.generic_visit(node)
@@ -1825,6 +2041,257 @@ def _hoist_named_expressions(tree):
     tree.body = block(tree.body)
 
 
+def _next_search_to_loop(fn) -> bool:
+    """N21  t = next((E for X in IT if C), D)   ->   for X in IT: if C: t = E ; break    else: t = D
+            return next((E for X in IT if C), D)  ->   for X in IT: if C: return E       ; return D
+    (one generator, D a constant or a plain name / attribute chain, so that evaluating it after the search changes nothing).  The
+    loop variables of the generator are private to it; they are renamed when the function mentions the same names elsewhere."""
+    changed = [False]
+    counter = [0]
+
+    def plain(e):
+        return isinstance(e, ast.Constant) or (isinstance(e, ast.Name)) or (isinstance(e, ast.Attribute) and plain(e.value))
+
+    def match(v):
+        if isinstance(v, ast.Call) and isinstance(v.func, ast.Name) and v.func.id == "next" and len(v.args) == 2 and not v.keywords and isinstance(v.args[0], ast.GeneratorExp) \
+                and len(v.args[0].generators) == 1 and not v.args[0].generators[0].is_async and plain(v.args[1]):
+            return v.args[0], v.args[1]
+        return None
+
+    def loop_for(gen, default, make_hit, make_miss, at):
+        g = gen.generators[0]
+        own = {n.id for n in ast.walk(g.target) if isinstance(n, ast.Name)}
+        inside = {id(n) for n in ast.walk(gen)}
+        clash = {n.id for n in ast.walk(fn) if isinstance(n, ast.Name) and n.id in own and id(n) not in inside}
+        clash |= {a.arg for a in ast.walk(fn.args) if isinstance(a, ast.arg) and a.arg in own}
+        target, elt, ifs = g.target, gen.elt, list(g.ifs)
+        if clash:
+            counter[0] += 1
+            ren = {n: f"{n}__g{counter[0]}" for n in clash}
+
+            class R(ast.NodeTransformer):
+                def visit_Name(self, node):
+                    if node.id in ren:
+                        return ast.copy_location(ast.Name(id=ren[node.id], ctx=node.ctx), node)
+                    return node
+            target, elt, ifs = R().visit(copy.deepcopy(target)), R().visit(copy.deepcopy(elt)), [R().visit(copy.deepcopy(c)) for c in ifs]
+            # the first iterable is evaluated outside the generator's scope: it keeps the enclosing names
+        for n in ast.walk(target):
+            if isinstance(n, ast.Name):
+                n.ctx = ast.Store()
+        body = make_hit(elt)
+        for c in reversed(ifs):
+            body = [ast.copy_location(ast.If(test=c, body=body, orelse=[]), at)]
+        return ast.copy_location(ast.For(target=target, iter=g.iter, body=body, orelse=make_miss(default), lineno=at.lineno), at)
+
+    def block(stmts):
+        out = []
+        for st in stmts:
+            if isinstance(st, FDEFS + (ast.ClassDef,)):
+                out.append(st)
+                continue
+            for field in ("body", "orelse", "finalbody"):
+                sub = getattr(st, field, None)
+                if isinstance(sub, list) and sub and isinstance(sub[0], ast.stmt):
+                    setattr(st, field, block(sub))
+            if isinstance(st, ast.Try):
+                for hd in st.handlers:
+                    hd.body = block(hd.body)
+            if isinstance(st, ast.Assign) and len(st.targets) == 1 and isinstance(st.targets[0], ast.Name) and match(st.value):
+                gen, default = match(st.value)
+                t = st.targets[0].id
+                if not any(isinstance(n, ast.Name) and n.id == t for n in ast.walk(gen)):
+                    mk = lambda v, st=st, t=t: ast.copy_location(ast.Assign(targets=[ast.Name(id=t, ctx=ast.Store())], value=v, lineno=st.lineno), st)
+                    out.append(loop_for(gen, default, lambda e: [mk(e), ast.copy_location(ast.Break(), st)], lambda d: [mk(d)], st))
+                    changed[0] = True
+                    continue
+            if isinstance(st, ast.Return) and st.value is not None and match(st.value):
+                gen, default = match(st.value)
+                out.append(loop_for(gen, default, lambda e, st=st: [ast.copy_location(ast.Return(value=e), st)], lambda d: [], st))
+                out.append(ast.copy_location(ast.Return(value=default), st))
+                changed[0] = True
+                continue
+            out.append(st)
+        return out
+
+    fn.body = block(fn.body)
+    return changed[0]
+
+
+class _MapToGenerator(ast.NodeTransformer):
+    """N22  map(f, it)  ->  (f(x) for x in it)   for f a plain name or attribute chain (one iterable, no keywords)"""
+
+    def __init__(self):
+        self.n = 0
+
+    def visit_Call(self, node):
+        self.generic_visit(node)
+        if isinstance(node.func, ast.Name) and node.func.id == "map" and len(node.args) == 2 and not node.keywords and _plain_chain_or_name(node.args[0]) \
+                and not isinstance(node.args[1], ast.Starred):
+            self.n += 1
+            var = f"x__m{self.n}"
+            gen = ast.GeneratorExp(elt=ast.Call(func=node.args[0], args=[ast.Name(id=var, ctx=ast.Load())], keywords=[]),
+                                   generators=[ast.comprehension(target=ast.Name(id=var, ctx=ast.Store()), iter=node.args[1], ifs=[], is_async=0)])
+            return ast.copy_location(gen, node)
+        return node
+
+
+def _plain_chain_or_name(e) -> bool:
+    return isinstance(e, ast.Name) or (isinstance(e, ast.Attribute) and _plain_chain_or_name(e.value))
+
+
+def _merge_nested_ifs(stmts):
+    """N23  if A: (if B: S)   ->   if A and B: S     (neither `if` has an else branch and the inner `if` is all the outer one holds)"""
+    for st in stmts:
+        for field in ("body", "orelse", "finalbody"):
+            sub = getattr(st, field, None)
+            if isinstance(sub, list) and sub and isinstance(sub[0], ast.stmt):
+                _merge_nested_ifs(sub)
+        if isinstance(st, ast.Try):
+            for hd in st.handlers:
+                _merge_nested_ifs(hd.body)
+        while isinstance(st, ast.If) and not st.orelse and len(st.body) == 1 and isinstance(st.body[0], ast.If) and not st.body[0].orelse:
+            inner = st.body[0]
+            parts = (st.test.values if isinstance(st.test, ast.BoolOp) and isinstance(st.test.op, ast.And) else [st.test]) + \
+                    (inner.test.values if isinstance(inner.test, ast.BoolOp) and isinstance(inner.test.op, ast.And) else [inner.test])
+            st.test = ast.copy_location(ast.BoolOp(op=ast.And(), values=parts), st.test)
+            st.body = inner.body
+
+
+def _inline_private_literals(tree, counts, known: Set[str]):
+    """N29  _NAME = <int | str literal> at module level, bound once, private (leading underscore, not part of the known interface) and
+    never assigned inside a function: every read of _NAME in this module is replaced by the literal (constant propagation).  The
+    definition stays."""
+    lits: Dict[str, ast.Constant] = {}
+    for st in tree.body:
+        if isinstance(st, ast.Assign) and len(st.targets) == 1 and isinstance(st.targets[0], ast.Name) and counts.get(st.targets[0].id) == 1:
+            n, v = st.targets[0].id, st.value
+            neg = isinstance(v, ast.UnaryOp) and isinstance(v.op, ast.USub) and isinstance(v.operand, ast.Constant) and isinstance(v.operand.value, (int, float)) and not isinstance(v.operand.value, bool)
+            if n.startswith("_") and not n.startswith("__") and n not in known and (neg or (isinstance(v, ast.Constant) and isinstance(v.value, (int, str, float)) and not isinstance(v.value, bool))):
+                lits[n] = v
+    if not lits:
+        return
+    # a name that is stored to, deleted, declared global or used as a parameter anywhere else is left alone
+    for n in ast.walk(tree):
+        if isinstance(n, ast.Name) and n.id in lits and not isinstance(n.ctx, ast.Load):
+            owner_is_def = any(isinstance(st, ast.Assign) and st.targets[0] is n for st in tree.body if isinstance(st, ast.Assign) and len(st.targets) == 1)
+            if not owner_is_def:
+                lits.pop(n.id, None)
+        elif isinstance(n, (ast.Global, ast.Nonlocal)):
+            for x in n.names:
+                lits.pop(x, None)
+        elif isinstance(n, ast.arg) and n.arg in lits:
+            lits.pop(n.arg, None)
+        elif isinstance(n, (ast.Import, ast.ImportFrom)):
+            for a in n.names:
+                lits.pop(a.asname or a.name, None)
+    if not lits:
+        return
+
+    class R(ast.NodeTransformer):
+        def visit_Name(self, node):
+            if isinstance(node.ctx, ast.Load) and node.id in lits:
+                return ast.copy_location(copy.deepcopy(lits[node.id]), node)
+            return node
+
+    for k_, st in enumerate(tree.body):
+        tree.body[k_] = R().visit(st)
+
+
+def _split_conditional_tuple_assign(stmts):
+    """N30  a, b = (X1, Y1) if c else (X2, Y2)   ->   if c: a = X1 ; b = Y1   else: a = X2 ; b = Y2
+    (displays of the same length as the target on both arms; within an arm the split follows the rules of plain tuple assignment)"""
+    out = []
+    for st in stmts:
+        for field in ("body", "orelse", "finalbody"):
+            sub = getattr(st, field, None)
+            if isinstance(sub, list) and sub and isinstance(sub[0], ast.stmt):
+                setattr(st, field, _split_conditional_tuple_assign(sub))
+        if isinstance(st, ast.Try):
+            for hd in st.handlers:
+                hd.body = _split_conditional_tuple_assign(hd.body)
+        if isinstance(st, ast.Assign) and len(st.targets) == 1 and isinstance(st.targets[0], ast.Tuple) and isinstance(st.value, ast.IfExp) \
+                and all(isinstance(a, ast.Tuple) and len(a.elts) == len(st.targets[0].elts) for a in (st.value.body, st.value.orelse)) \
+                and not any(isinstance(x, ast.Starred) for x in st.targets[0].elts):
+            mk = lambda arm: [ast.copy_location(ast.Assign(targets=[copy.deepcopy(st.targets[0])], value=arm, lineno=st.lineno), st)]
+            out.append(ast.copy_location(ast.If(test=st.value.test, body=mk(st.value.body), orelse=mk(st.value.orelse)), st))
+            continue
+        # N31  x = A if c else x  ->  if c: x = A        x = x if c else A  ->  if not c: x = A     (the other arm assigns x to itself)
+        if isinstance(st, ast.Assign) and len(st.targets) == 1 and isinstance(st.targets[0], ast.Name) and isinstance(st.value, ast.IfExp):
+            x = st.targets[0].id
+            keep_else = isinstance(st.value.orelse, ast.Name) and st.value.orelse.id == x
+            keep_body = isinstance(st.value.body, ast.Name) and st.value.body.id == x
+            if keep_else != keep_body:
+                test = st.value.test if keep_else else _negate(st.value.test)
+                arm = st.value.body if keep_else else st.value.orelse
+                one = ast.copy_location(ast.Assign(targets=[st.targets[0]], value=arm, lineno=st.lineno), st)
+                if getattr(st, "type_comment", None):
+                    one.type_comment = st.type_comment
+                out.append(ast.copy_location(ast.If(test=test, body=[one], orelse=[]), st))
+                continue
+        out.append(st)
+    return out
+
+
+def _augadd_display_to_append(fn):
+    """N32  L += [e]  ->  L.append(e)     L += [e1, e2]  ->  L.append(e1) ; L.append(e2)
+    for a local L that this function binds only to list displays, list comprehensions or list(...) (so it is a list)."""
+    binds: Dict[str, List[ast.AST]] = {}
+    for n in _walk_own(fn):
+        if isinstance(n, ast.Assign):
+            for t in n.targets:
+                if isinstance(t, ast.Name):
+                    binds.setdefault(t.id, []).append(n.value)
+                else:
+                    for x in ast.walk(t):
+                        if isinstance(x, ast.Name) and isinstance(x.ctx, ast.Store):
+                            binds.setdefault(x.id, []).append(None)
+        elif isinstance(n, (ast.For, ast.comprehension)):
+            for x in ast.walk(n.target):
+                if isinstance(x, ast.Name):
+                    binds.setdefault(x.id, []).append(None)
+        elif isinstance(n, (ast.AnnAssign, ast.NamedExpr)) and isinstance(n.target, ast.Name):
+            binds.setdefault(n.target.id, []).append(n.value)
+        elif isinstance(n, ast.With):
+            for it in n.items:
+                if it.optional_vars is not None:
+                    for x in ast.walk(it.optional_vars):
+                        if isinstance(x, ast.Name):
+                            binds.setdefault(x.id, []).append(None)
+    params = {a.arg for a in ast.walk(fn.args) if isinstance(a, ast.arg)}
+
+    def is_list(v):
+        return isinstance(v, (ast.List, ast.ListComp)) or (isinstance(v, ast.Call) and isinstance(v.func, ast.Name) and v.func.id == "list")
+
+    lists = {k for k, vs in binds.items() if k not in params and vs and all(v is not None and is_list(v) for v in vs)}
+    if not lists:
+        return
+
+    def block(stmts):
+        out = []
+        for st in stmts:
+            if isinstance(st, FDEFS + (ast.ClassDef,)):
+                out.append(st)
+                continue
+            for field in ("body", "orelse", "finalbody"):
+                sub = getattr(st, field, None)
+                if isinstance(sub, list) and sub and isinstance(sub[0], ast.stmt):
+                    setattr(st, field, block(sub))
+            if isinstance(st, ast.Try):
+                for hd in st.handlers:
+                    hd.body = block(hd.body)
+            if isinstance(st, ast.AugAssign) and isinstance(st.op, ast.Add) and isinstance(st.target, ast.Name) and st.target.id in lists and isinstance(st.value, ast.List) \
+                    and st.value.elts and not any(isinstance(e, ast.Starred) for e in st.value.elts):
+                for e in st.value.elts:
+                    call = ast.Call(func=ast.Attribute(value=ast.Name(id=st.target.id, ctx=ast.Load()), attr="append", ctx=ast.Load()), args=[e], keywords=[])
+                    out.append(ast.copy_location(ast.Expr(value=call), st))
+                continue
+            out.append(st)
+        return out
+
+    fn.body = block(fn.body)
+
+
 def _local_annotations_to_assignments(tree):
     """x: T = v  ->  x = v   for plain local names inside functions (the annotation is kept as the assignment's type comment, where
     the truthiness typing still reads it).  Class-level fields and attributes keep their annotated form."""
@@ -2055,12 +2522,24 @@ def normalise_module(module_name: str, tree: ast.Module, multiply_defined: froze
             if isinstance(st.value, ast.Tuple) and st.value.elts and all(isinstance(e, (ast.Name, ast.Attribute)) for e in st.value.elts):
                 mt[st.targets[0].id] = st.value
     mt = {k: v for k, v in mt.items() if counts.get(k) == 1}
+    _fold_module_constants(tree, counts)
+    module_consts_early = {st.targets[0].id: st.value for st in tree.body
+                           if isinstance(st, ast.Assign) and len(st.targets) == 1 and isinstance(st.targets[0], ast.Name) and counts.get(st.targets[0].id) == 1
+                           and isinstance(st.value, (ast.Tuple, ast.List)) and st.value.elts and all(isinstance(e, ast.Constant) for e in st.value.elts)}
     _hoist_named_expressions(tree)
+    tree = _MapToGenerator().visit(tree)
+    if known_names():
+        _inline_private_literals(tree, counts, set(known_names().get(module_name, [])))
+    tree.body = _split_conditional_tuple_assign(tree.body)
     _local_annotations_to_assignments(tree)
     tree = _BoolOfCompare().visit(tree)
+    searched = False
     for n in ast.walk(tree):
         if isinstance(n, FDEFS):
             _inline_local_closures(n)
+            searched = _next_search_to_loop(n) or searched
+    if searched:
+        tree.body = _merge_search_result(tree.body)
     tree = _Isinstance(mt).visit(tree)
     if mt:
         tree = _MembershipInModuleTuple(mt).visit(tree)
@@ -2097,8 +2576,10 @@ def normalise_module(module_name: str, tree: ast.Module, multiply_defined: froze
     for n in ast.walk(tree):
         if isinstance(n, FDEFS):
             _unroll_literal_loops(n, module_tables)
+    tree = _UnrollLiteralComprehensions(module_consts_early).visit(tree)
     tree.body = _split_tuple_assigns(tree.body)
-    if had_helpers or records:
+    _merge_nested_ifs(tree.body)
+    if had_helpers or records or searched:
         for n in ast.walk(tree):
             if isinstance(n, FDEFS):
                 _eliminate_aliases(n)
@@ -2116,6 +2597,8 @@ def normalise_module(module_name: str, tree: ast.Module, multiply_defined: froze
         if isinstance(st, ast.Assign) and len(st.targets) == 1 and isinstance(st.targets[0], ast.Name) and counts.get(st.targets[0].id) == 1 \
                 and isinstance(st.value, (ast.Tuple, ast.List)) and st.value.elts and all(isinstance(e, ast.Constant) for e in st.value.elts):
             module_consts[st.targets[0].id] = st.value
+    if module_consts:
+        tree = _FoldConstTableOps(module_consts).visit(tree)
     tree = _UnrollLiteralComprehensions(module_consts).visit(tree)
     tree = _GetattrLiteral().visit(tree)
     tree = _SpliceDoubleStarDict().visit(tree)
@@ -2123,6 +2606,7 @@ def normalise_module(module_name: str, tree: ast.Module, multiply_defined: froze
     tree = _EmptyJoinToConcat().visit(tree)
     for n in ast.walk(tree):
         if isinstance(n, FDEFS):
+            _augadd_display_to_append(n)
             _fold_list_building(n)
     for n in ast.walk(tree):
         if isinstance(n, FDEFS):
@@ -2130,5 +2614,11 @@ def normalise_module(module_name: str, tree: ast.Module, multiply_defined: froze
             n.body = _dict_loops_to_comprehensions(n.body)
             _fold_tagged_temps(n)
             _fold_stable_aliases(n)
+    # what the folding of temporaries has exposed (a bound that became a literal, a table index that became a constant)
+    if module_consts:
+        tree = _FoldConstTableOps(module_consts).visit(tree)
+    tree = _UnrollLiteralComprehensions(module_consts).visit(tree)
+    tree = _GetattrLiteral().visit(tree)
+    tree = _SpliceDoubleStarDict().visit(tree)
     ast.fix_missing_locations(tree)
     return tree
